@@ -35,7 +35,12 @@
 (* stopped early or was answered by the spilled join's partition 0         *)
 (* (ConsumedOnce); the partition one past the declared count is refused    *)
 (* (GuardRejects).  Every finished run is emitted for replay on the real   *)
-(* operators (harness/src/optree.rs).                                      *)
+(* operators (harness/src/optree.rs, judged by checks/partcontract.py).    *)
+(*                                                                         *)
+(* Bounds: tree families of depth <= 3 (Family), rows / partitions / keys  *)
+(* / batch cuts per family and tier (Bounds).  Where the unchanged engine  *)
+(* breaks the property the model stays ideal and only reports that a run   *)
+(* has the listed shape (st.dev, see Dev below).                           *)
 (***************************************************************************)
 EXTENDS VerifIO, SequencesExt, FiniteSetsExt, Bags
 
@@ -65,6 +70,8 @@ BFull == {<<"union", 0, 0>>, <<"join", 0, 0>>, <<"join", 0, 2>>, <<"join", 1, 0>
           <<"join", 3, 0>>, <<"join", 4, 0>>, <<"join", 4, 1>>, <<"join", 5, 0>>, <<"join", 5, 1>>}
 BCore == {<<"union", 0, 0>>, <<"join", 0, 0>>, <<"join", 1, 0>>, <<"join", 1, 1>>, <<"join", 2, 0>>, <<"join", 3, 0>>, <<"join", 4, 0>>, <<"join", 5, 1>>}
 
+BInner == {<<"union", 0, 0>>, <<"join", 0, 0>>, <<"join", 1, 0>>, <<"join", 3, 0>>}
+
 RECURSIVE Width(_)
 Width(t) == CASE t.op = "leaf" -> 2
               [] t.op = "project" -> 2
@@ -90,13 +97,13 @@ Family(f) ==
     [] f = "big"  -> {Un(<<"agg", 1, 0>>, Leaf), Un(<<"agg", 1, 0>>, Bi(<<"join", 1, 0>>, Leaf, Leaf)),
                       Un(<<"agg", 1, 0>>, Un(<<"project", 0, 0>>, Bi(<<"join", 1, 0>>, Leaf, Leaf))),
                       Un(<<"agg", 1, 0>>, Bi(<<"join", 1, 1>>, Leaf, Leaf)), Un(<<"sort", -1, 0>>, Bi(<<"join", 1, 0>>, Leaf, Leaf))}
-    [] f = "uu"  -> {Un(v, k) : v \in UFull, k \in U1(UFull)}
+    [] f = "uu"  -> {Un(v, k) : v \in (IF Tier = "quick" THEN UQuick ELSE UFull), k \in U1(UFull)}
     [] f = "ub"  -> {Un(v, k) : v \in (IF Tier = "quick" THEN UQuick ELSE UCore), k \in B1(BFull)}
     [] f = "bu"  -> {Bi(v, k, Leaf) : v \in BCore, k \in U1(UCore)} \cup {Bi(v, Leaf, k) : v \in BCore, k \in U1(UCore)}
     [] f = "uuu" -> {Un(v, Un(w, k)) : v \in UCore, w \in UPass, k \in U1(UCore)} \cup {Un(v, Un(w, k)) : v \in UCore, w \in UCore, k \in U1(UPass)}
     [] f = "uub" -> {Un(v, Un(w, k)) : v \in UCore, w \in UPass, k \in B1(BCore)}
     [] f = "ubu" -> {Un(v, Bi(w, k, Leaf)) : v \in UCore, w \in BCore, k \in U1(UPass)} \cup {Un(v, Bi(w, Leaf, k)) : v \in UCore, w \in BCore, k \in U1(UPass)}
-    [] f = "bb"  -> {Bi(v, k, Leaf) : v \in BCore, k \in B1(BCore)} \cup {Bi(v, Leaf, k) : v \in BCore, k \in B1(BCore)}
+    [] f = "bb"  -> {Bi(v, k, Leaf) : v \in BCore, k \in B1(BInner)} \cup {Bi(v, Leaf, k) : v \in BCore, k \in B1(BInner)}
     [] OTHER -> {}
 TreesOf(f) == {t \in Family(f) : WellFormed(t)}
 
@@ -119,12 +126,12 @@ Bounds(f) ==
          [] OTHER -> Bd(0, 1, 2, 2, 0)
   ELSE CASE f = "d1u" -> Bd(0, 3, 3, 1, 1)
          [] f = "d1c" -> Bd(0, 3, 2, 1, 2)
-         [] f = "d1b" -> Bd(0, 2, 3, 1, 0)
+         [] f = "d1b" -> Bd(0, 2, 2, 1, 1)
          [] f = "d1p" -> Bd(0, 1, 3, 1, 1)
          [] f = "wide" -> Bd(4, 5, 3, 2, 1)
-         [] f = "uu" -> Bd(0, 2, 3, 1, 1)
-         [] f = "ub" -> Bd(0, 2, 2, 2, 0)
-         [] f = "bu" -> Bd(0, 1, 2, 1, 1)
+         [] f = "uu" -> Bd(0, 2, 2, 1, 1)
+         [] f = "ub" -> Bd(0, 1, 2, 1, 1)
+         [] f = "bu" -> Bd(0, 1, 2, 2, 1)
          [] f = "uuu" -> Bd(0, 2, 2, 1, 1)
          [] f = "uub" -> Bd(0, 1, 2, 1, 0)
          [] f = "ubu" -> Bd(0, 1, 2, 1, 0)
@@ -212,9 +219,11 @@ St0(t) == [uses |-> EmptyBag, js |-> [n \in 1..Size(t) |-> NoJoin], dev |-> {}]
 \* Shapes on which the unchanged engine is known to break the property (known_findings.jsonl); the model stays
 \* ideal, it only REPORTS that a run has the shape (st.dev) so that the check can classify exactly these:
 \*   "jz"  a join that keeps unmatched PROBE rows (Left with build_right, Full) probes a partition that has rows
-\*         while its build side delivered no batch at all                     (C07/outer-join-build-without-batches)
-\*   "sn"  a sort input of at least two batches with rows, with NULL and non-NULL keys: under a memory budget the
-\*         k-way merge of the spilled runs orders NULLs last                  (C07/spilled-sort-merge-nulls-last)
+\*         while its build side has no rows: the engine fails when the build side delivered no BATCH at all
+\*         and answers when it delivered an empty one                         (C07/outer-join-build-without-batches)
+\*   "sn"  a sort input with NULL and non-NULL keys: under a memory budget the k-way merge of the spilled runs
+\*         (one per input batch) orders NULLs last                            (C07/spilled-sort-merge-nulls-last)
+\* (the shapes deliberately do not depend on how the MODEL cuts operator outputs into batches)
 \*   "rx"  a grouped aggregate of more than 64 groups over a subtree with a join that must emit unmatched BUILD rows:
 \*         under a tiny budget the fused streaming attempt gives up and the input is executed a SECOND time
 \*                                                                            (C07/aggregate-fallback-reexecutes-join)
@@ -279,7 +288,7 @@ Ex(t, nid, lb, sp, p, st0) ==
                               ELSE LET s == SortRows(Flat(r.bs))
                                        ks == KeysOf(s)
                                    IN OkR(<<IF t.a < 0 THEN s ELSE SubSeq(s, 1, Min2(t.a, Len(s)))>>,
-                                          Dev(r.st, "sn", NonEmpty(r.bs) >= 2 /\ NULL \in ks /\ ks # {NULL}))
+                                          Dev(r.st, "sn", NULL \in ks /\ ks # {NULL}))
        [] t.op = "agg" -> LET r == DrainAll(K(1), KN(1), KL(1), sp, st)
                               rows == Flat(r.bs)
                           IN IF r.err = 1 THEN r
@@ -333,7 +342,7 @@ Ex(t, nid, lb, sp, p, st0) ==
                   IN IF rp.err = 1 THEN rp
                      ELSE OkR(<<Probe(prows)>> \o (IF tail = <<>> THEN <<>> ELSE <<tail>>),
                               Dev([rp.st EXCEPT !.js[nid].done = done, !.js[nid].matched = matched],
-                                  "jz", probeKept /\ st1.js[nid].bnb = 0 /\ Len(prows) > 0))
+                                  "jz", probeKept /\ Len(brows) = 0 /\ Len(prows) > 0))
 
 \* ------------------------------------------------------ rows and splits ----
 RowsOf(leaf, ks) == [j \in DOMAIN ks |-> <<ks[j], 10 * leaf + j>>]
